@@ -266,7 +266,7 @@ class WRes:
                 SLOT['doc']['n'] = SLOT['doc'].get('n', 0) + 1      # amend the document in place ...
                 resp.media = SLOT['doc']                            # ... and assign it again
             else:
-                resp.render_body()
+                SLOT.setdefault('renders', []).append(resp.render_body())
 
     def on_post(self, req, resp):
         log = SLOT['log'] = []
@@ -304,7 +304,7 @@ class ARes:
                 SLOT['doc']['n'] = SLOT['doc'].get('n', 0) + 1
                 resp.media = SLOT['doc']
             else:
-                await resp.render_body()
+                SLOT.setdefault('renders', []).append(await resp.render_body())
 
     async def on_post(self, req, resp):
         log = SLOT['log'] = []
@@ -693,6 +693,7 @@ def case_P(case, rep):
                 rep.state()
                 last = None
                 cur1 = dict(d1_init)
+                at_render = []      # the document render_body() must serialise at each explicit call
                 for s in hist:
                     if s == 'set1':
                         last = dict(cur1)
@@ -701,6 +702,8 @@ def case_P(case, rep):
                     elif s == 'mut1':
                         cur1['n'] = cur1.get('n', 0) + 1
                         last = dict(cur1)
+                    else:
+                        at_render.append(None if last is None else (dict(last) if isinstance(last, dict) else list(last)))
                 for stack in ('wsgi', 'asgi'):
                     for ct in (falcon.MEDIA_JSON, vendor_type(sym)):
                         d1 = dict(d1_init)
@@ -717,6 +720,19 @@ def case_P(case, rep):
                             else:
                                 try:
                                     good = J.same(J.decode(res.body), last)
+                                except J.Reject:
+                                    good = False
+                        if good:
+                            # what every explicit render_body() call returned
+                            got_r = SLOT.get('renders', [])
+                            if len(got_r) != len(at_render):
+                                good = False
+                            for r, want in zip(got_r, at_render):
+                                try:
+                                    if want is None:
+                                        good = good and (r is None or r == b'')
+                                    else:
+                                        good = good and r is not None and J.same(J.decode(r), want)
                                 except J.Reject:
                                     good = False
                         rep.outcome('P:%s' % ('ok' if good else 'STALE'))
